@@ -5,16 +5,22 @@ import BfeVerif.C01.Model
     `init 5,1,1`        BalanceRR.Init with configured weights (backend ids 0,1,2,…; `-` = empty list)
     `ginit 5,1,1`       the same, but the whole history runs through BalanceGslb with one sub-cluster
     `bal 7`             7 consecutive Balance(WrrSmooth) calls
+    `bal 7@500000`      the same; before each call `startTime` of every backend in slow start is moved to
+                        now − 500000 s (hook), i.e. updateSlowStart observes elapsed = 500000 s
+    `ss 1000000`        SetSlowStart(1000000)   (seconds; 0 = off)
+    `rs 2`              SetRestart(true) on backend id 2 (what the health checker does when it comes back)
     `av 1 0`            SetAvail(false) on backend id 1
     `upd 0:3,2:1,5:4`   BalanceRR.Update with this conf (id:weight; members kept/dropped/added)
-  result per op, joined by `|`:  `ok`  or, for `bal`, `p=<ids returned, e = error>;c=<current of every list entry>`
+  result per op, joined by `|`:  `ok`  or, for `bal`, `p=<ids returned, e = error>;c=<current>;w=<weight>;s=<inSlowStart 0/1>;f=<weightSS.final>` of every list entry
 -/
 namespace BfeVerif.C01
 open BfeVerif.Proto
 
 inductive Op where
   | init (ws : List Int)
-  | bal (k : Nat)
+  | bal (k : Nat) (e : Nat)      -- k calls; every backend in slow start observes `e` seconds elapsed
+  | ss (t : Int)                -- SetSlowStart(t)
+  | rs (id : Nat)               -- backend.SetRestart(true), as the health checker does
   | av (id : Nat) (v : Bool)
   | upd (c : List (Nat × Int))
 
@@ -35,7 +41,16 @@ def parseOp (s : String) : Option Op :=
   match s.splitOn " " with
   | ["init", ws] => (parseInts ws).map Op.init
   | ["ginit", ws] => (parseInts ws).map Op.init   -- same history through BalanceGslb (single sub-cluster)
-  | ["bal", k] => k.toNat?.map Op.bal
+  | ["bal", k] =>
+    match k.splitOn "@" with
+    | [k] => k.toNat?.map fun k => Op.bal k 0
+    | [k, e] => do
+      let k ← k.toNat?
+      let e ← e.toNat?
+      pure (Op.bal k e)
+    | _ => none
+  | ["ss", t] => t.toInt?.map Op.ss
+  | ["rs", i] => i.toNat?.map Op.rs
   | ["av", i, v] => i.toNat?.map fun i => Op.av i (v == "1")
   | ["upd", c] => (parsePairs c).map Op.upd
   | _ => none
@@ -46,7 +61,8 @@ def parseOps (s : String) : Option (List Op) := (s.splitOn "|").mapM parseOp
 
 structure St where
   ids : List Nat
-  bs : List Backend
+  l : List SS
+  T : Int := 0
 
 def joinC (l : List String) : String := if l.isEmpty then "-" else ",".intercalate l
 
@@ -56,30 +72,39 @@ def showPick (ids : List Nat) : Option Nat → String
 
 /-- `BalanceRR.Update`: walk the old list in order (keep + UpdateWeight, or drop), then append the new members -/
 def updateModel (conf : List (Nat × Int)) (st : St) : St :=
-  let kept := (st.ids.zip st.bs).filterMap fun (id, b) =>
+  let kept := (st.ids.zip st.l).filterMap fun (id, s) =>
     match conf.lookup id with
-    | some w => some (id, updateWeight 100 w b)
+    | some w => some (id, { s with b := updateWeight 100 w s.b })      -- weightSS.final is NOT updated
     | none => none
-  let added := (conf.filter fun (id, _) => !st.ids.contains id).map fun (id, w) => (id, initBackend 100 w)
+  let added := (conf.filter fun (id, _) => !st.ids.contains id).map fun (id, w) =>
+    (id, { initSS 100 w with restarted := true })                     -- backend.SetRestart(true)
   let all := kept ++ added
-  { ids := all.map (·.1), bs := all.map (·.2) }
+  { st with ids := all.map (·.1), l := all.map (·.2) }
 
 def modelOp (st : St) : Op → St × String
-  | .init ws => ({ ids := List.range ws.length, bs := initList 100 ws }, "ok")
-  | .bal k =>
-    let ps := picks k st.bs
-    let bs' := stateAfter k st.bs
-    ({ st with bs := bs' },
-      "p=" ++ joinC (ps.map (showPick st.ids)) ++ ";c=" ++ joinC (bs'.map fun b => toString b.current))
+  | .init ws => ({ ids := List.range ws.length, l := ws.map (initSS 100) }, "ok")
+  | .bal k e =>
+    let r := runSS (List.replicate k (st.T, 0, (e : Int) * nsPerSec)) st.l
+    let l' := r.2
+    ({ st with l := l' },
+      "p=" ++ joinC (r.1.map (showPick st.ids)) ++ ";c=" ++ joinC (l'.map fun s => toString s.b.current)
+        ++ ";w=" ++ joinC (l'.map fun s => toString s.b.weight)
+        ++ ";s=" ++ joinC (l'.map fun s => if s.inSS then "1" else "0")
+        ++ ";f=" ++ joinC (l'.map fun s => toString s.final))
   | .av id v =>
     let i := st.ids.idxOf id
-    ((if i < st.ids.length then { st with bs := setAvail i v st.bs } else st), "ok")
+    ((if i < st.ids.length then
+        { st with l := st.l.modify i fun s => { s with b := { s.b with avail := v } } } else st), "ok")
   | .upd c => (updateModel c st, "ok")
+  | .ss t => ({ st with T := t }, "ok")
+  | .rs id =>
+    let i := st.ids.idxOf id
+    ((if i < st.ids.length then { st with l := st.l.modify i fun s => { s with restarted := true } } else st), "ok")
 
 def modelRun (ops : List Op) : String :=
   let r := ops.foldl (fun (acc : St × List String) o =>
     let r := modelOp acc.1 o
-    (r.1, r.2 :: acc.2)) (({ ids := [], bs := [] } : St), [])
+    (r.1, r.2 :: acc.2)) (({ ids := [], l := [] } : St), [])
   "|".intercalate r.2.reverse
 
 /-! ### the spec oracle: judges the IMPLEMENTATION's result string, knows nothing of `current` -/
@@ -88,14 +113,20 @@ structure Ent where
   id : Nat
   w : Int
   avail : Bool
+  pend : Bool := false       -- restart flag set, slow start begins at the next call with slowStartTime > 0
+  ramp : Bool := false       -- in slow start: no call has observed elapsed ≥ slowStartTime yet
+  stale : Bool := false      -- its conf weight was changed by a reload (UpdateWeight does not update weightSS.final)
+  staleRamp : Bool := false  -- … and it went through slow start afterwards
 deriving BEq
 
 structure OSt where
   cfg : List Ent := []
-  phase : String := "steady"      -- steady | reload | flip
+  T : Int := 0                     -- brr.slowStartTime
+  phase : String := "steady"      -- steady | reload | flip | slowstart
   pristine : Bool := true          -- no Balance call since Init
   seq : Array (Option Nat) := #[]  -- results since the last change of weights / availability
   fails : List String := []
+  lastC : List Int := []          -- `current` vector reported after the previous segment
   fullWindows : Nat := 0           -- number of complete W-windows judged in steady phase with ≥ 2 eligible
   tags : List String := []
 
@@ -128,10 +159,15 @@ def judge (o : OSt) : OSt :=
                  fullWindows := o.fullWindows + (if o.phase == "steady" && elig.length ≥ 2 then n - W + 1 else 0) }
       else fail "window"
 
+def parseField (name : String) (s : String) : Option (List Int) :=
+  match (s.splitOn ";").find? (·.startsWith (name ++ "=")) with
+  | none => none
+  | some f => parseInts (f.drop (name.length + 1)).toString
+
 def parsePicks (s : String) : Option (Array (Option Nat)) :=
-  -- s = "p=...;c=..."
+  -- s = "p=...;c=...;w=...;s=...;f=..."
   match s.splitOn ";" with
-  | [p, _] =>
+  | p :: _ =>
     if p.startsWith "p=" then
       let body := (p.drop 2).toString
       if body == "-" then some #[] else
@@ -143,12 +179,60 @@ def oracleOp (o : OSt) (op : Op) (res : String) : OSt :=
   match op with
   | .init ws =>
     let o := judge o
-    { o with cfg := (List.range ws.length).zip ws |>.map (fun (i, w) => ⟨i, w, true⟩),
+    { o with cfg := (List.range ws.length).zip ws |>.map (fun (i, w) => ({ id := i, w := w, avail := true } : Ent)),
              phase := "steady", pristine := true, seq := #[] }
-  | .bal _ =>
-    match parsePicks res with
-    | none => { o with fails := ("bad-result") :: o.fails }
-    | some ps => { o with seq := o.seq ++ ps, pristine := false }
+  | .bal k e =>
+    match parsePicks res, parseField "w" res with
+    | some ps, some wv =>
+      let active := decide (o.T > 0) && o.cfg.any fun x => x.pend || x.ramp
+      -- slow-start bookkeeping from the op alone: a pending restart starts ramping at the first call
+      -- (it observes ~0 s), every ramping backend is finished by a call that observes e ≥ slowStartTime
+      let o1 := if active then judge o else o
+      let cfg1 := if active then o1.cfg.map fun x =>
+          let started := x.pend
+          let x := if x.pend then { x with pend := false, ramp := true, staleRamp := x.staleRamp || x.stale } else x
+          let sees := if started then decide (k ≥ 2) else decide (k ≥ 1)
+          if x.ramp && sees && decide ((e : Int) ≥ o.T) then { x with ramp := false } else x
+        else o1.cfg
+      -- the weights the implementation reports after the segment
+      let wfails := ((cfg1.zip wv).filterMap fun (x, w) =>
+        if x.ramp && decide (o.T > 0) then
+          (if decide (0 ≤ x.w) && !(decide (0 ≤ w) && decide (w ≤ x.w * 100)) then
+            some (if x.staleRamp then "slowstart-stale-final" else "slowstart-range") else none)
+        else if w == x.w * 100 then none
+        else if x.ramp then some "slowstart-frozen-by-disable"
+        else if x.staleRamp then some "slowstart-stale-final"
+        else if o.phase == "slowstart" || active then some "slowstart-weight"
+        else some "weight")
+      let wfails := if wv.length == cfg1.length then wfails else ["bad-result"]
+      if active then
+        { o1 with cfg := cfg1, phase := "slowstart", seq := #[], pristine := false, lastC := [],
+                  fails := wfails.reverse ++ o1.fails, tags := "ss" :: o1.tags }
+      else
+        -- consequences of C01_sum_heals / C01_offorbit_bounded_partial that must hold in EVERY phase once at least
+        -- one call was made since the last change (o.seq non-empty) and slow start is over:
+        --   Σ current = Σ weight over the eligible members, and  W·nᵢ ≤ k·wᵢ + max 0 (cᵢ − wᵢ + W − 1)
+        let cv := (parseField "c" res).getD []
+        let el := (o.cfg.zip (o.lastC.zip cv)).filter fun (x, _) => x.avail && decide (0 < x.w)
+        let W : Int := el.foldl (fun (a : Int) (p : Ent × Int × Int) => a + p.1.w * 100) 0
+        let k : Int := ps.size
+        let hold := !o.seq.isEmpty && wfails.isEmpty && o.lastC.length == o.cfg.length && cv.length == o.cfg.length
+          && !el.isEmpty
+        let sumOk := el.foldl (fun (a : Int) (p : Ent × Int × Int) => a + p.2.2) 0 == W
+        let startOk := el.foldl (fun (a : Int) (p : Ent × Int × Int) => a + p.2.1) 0 == W
+        let boundOk := el.all fun (x, c0, _) =>
+          let n : Int := countId ps 0 ps.size x.id
+          let w := x.w * 100
+          decide (W * n ≤ k * w + max 0 (c0 - w + W - 1))
+        let extra := if !hold then [] else if !sumOk then [o.phase ++ "-sum-invariant"]
+          else if startOk && !boundOk then [o.phase ++ "-share-bound"] else []
+        { o with seq := o.seq ++ ps, pristine := false, lastC := cv, fails := extra ++ wfails.reverse ++ o.fails }
+    | _, _ => { o with fails := ("bad-result") :: o.fails }
+  | .ss t => { o with T := t, tags := "ss-set" :: o.tags }
+  | .rs id =>
+    if o.cfg.any (·.id == id) then
+      { o with cfg := o.cfg.map (fun x => if x.id == id then { x with pend := true } else x) }
+    else o
   | .av id v =>
     match o.cfg.find? (·.id == id) with
     | none => o
@@ -161,8 +245,10 @@ def oracleOp (o : OSt) (op : Op) (res : String) : OSt :=
     let same := c.length == o.cfg.length && o.cfg.all fun e => c.lookup e.id == some e.w
     if same then { o with tags := "upd-same" :: o.tags } else
     let o := judge o
-    let kept := o.cfg.filterMap fun e => (c.lookup e.id).map fun w => { e with w := w }
-    let added := (c.filter fun (id, _) => !(o.cfg.any (·.id == id))).map fun (id, w) => (⟨id, w, true⟩ : Ent)
+    let kept := o.cfg.filterMap fun e => (c.lookup e.id).map fun w =>
+      { e with w := w, stale := e.stale || (w != e.w) }
+    let added := (c.filter fun (id, _) => !(o.cfg.any (·.id == id))).map fun (id, w) =>
+      ({ id := id, w := w, avail := true, pend := true } : Ent)
     { o with cfg := kept ++ added, phase := "reload", tags := "upd" :: o.tags }
 
 def oracleRun (ops : List Op) (impl : String) : OSt :=
@@ -177,6 +263,7 @@ def run (op impl : String) : Ans :=
   | none => { model := "bad-op", verdict := "skip" }
   | some ops =>
     let m := modelRun ops
+    if impl == "timing-unstable" then { model := impl, verdict := "skip", tags := ["timing-unstable"] } else
     if impl.startsWith "PANIC" || impl.startsWith "HANG" then
       { model := m, verdict := "FAIL:crash", tags := ["crash"] }
     else
